@@ -156,6 +156,7 @@ pub fn verif_poll_listen(sig_full: bool, sig_drop: bool, stop_full: bool, stop_d
         let _ = cell.inner.send_message_unchecked::<u64>(7);
     }
     if chans_closed {
+        #[cfg(feature = "cluster")]
         crate::registry::pid_registry::unregister_pid(cell.get_id());
         drop(cell);
     }
